@@ -85,6 +85,25 @@ def gen_cases(rng, tier):
                 'x': ['q', _amount(rng), rng.choice(us)],
                 'k': rng.choice([n for n in NUMS if num_value(n) != 0
                                  and n[0] != 'stddec'])}})
+    # quantity.sum with a start value: a quantity (added first), a plain number (TypeError,
+    # zero included: seeded C03-f), another type's quantity
+    zeros = [['int', '0/1'], ['float', (0.0).hex()], ['dec', '0/1'], ['frac', '0/1'], ['bool', '0']]
+    for c in types:
+        us = unit_of[c]
+        for st in [['n', z] for z in zeros] + [['n', ['int', '5/1']], ['n', ['dec', '5/4']]]:
+            xs = [['q', _amount(rng), rng.choice(us)] for _ in range(rng.randint(1, 3))]
+            cases.append({'world': pre, 'dm': 'MHEVEN', 'op': {'o': 'sum', 'xs': xs, 'start': st}})
+        xs = [['q', _amount(rng), rng.choice(us)] for _ in range(rng.randint(1, 3))]
+        cases.append({'world': pre, 'dm': 'MHEVEN',
+                      'op': {'o': 'sum', 'xs': xs, 'start': ['q', _amount(rng), rng.choice(us)]}})
+    # a ZERO quantity and a ZERO number are still not equal and do not add (seeded C03-g, C03-e)
+    for z in zeros:
+        for zq in (['dec', '0/1'], ['frac', '0/1']):
+            for o in OPS:
+                for order in (0, 1):
+                    q = ['q', zq, rng.choice(allsyms)]
+                    x, y = (q, ['n', z]) if order == 0 else (['n', z], q)
+                    cases.append({'world': pre, 'dm': 'MHEVEN', 'op': {'o': o, 'x': x, 'y': y}})
     for _ in range(250 if tier == 'quick' else 4000):
         world = W.random_world(rng, n_classes=2)
         views = W.Views(world)
@@ -147,7 +166,13 @@ def oracle(case, r):
         if exp != exact:
             return f"{o}: on-grid operands gave an off-grid exact result {exact} (quantum {ux['quantum']})"
         return None
+    if o == 'sum' and 'start' in op and op['start'][0] != 'q':
+        # sum(quantities, plain number): number + quantity, a TypeError whatever the number
+        return None if Q.is_err(res, 'ETypeError') else \
+            f"sum with a plain-number start value {op['start'][1]} did not raise TypeError: {res}"
     if o == 'sum':
+        xs_all = ([op['start']] if 'start' in op else []) + op['xs']
+        op = dict(op, xs=xs_all)
         us = [views.units[s[2]] for s in op['xs']]
         if any(u['scale'] is None for u in us) or len({u['cls'] for u in us}) != 1:
             return None
